@@ -43,6 +43,15 @@ CLAIMED = {
              "sequences are not decided.",
         tech="who-writes + control-dependence (must-facts) on CFG, per-path bookkeeping counts, resolved indirect-call reachability",
         ref="DESIGN.md §4 C12"),
+    "C05": dict(
+        text="Structural clauses of the map decided statically: every key duplicated by the map is stored into an entry or released on every "
+             "path (ownership followed into the callee); a replaced/cleared value is destroyed first exactly when a destructor is set, keys are "
+             "released exactly when owned, the destructor is reachable only from put-update and clear; whole-entry memcpy is a move; key stores "
+             "pair with length++/--; table_size only takes power-of-two values and matches the allocation; growth precedes the slot search and "
+             "probe loops are bounded; a no-update map refuses with -EPERM without effect. Probing/back-shift correctness for colliding or wrapping "
+             "clusters and exactly-once iteration depend on hash values and are not decided.",
+        tech="path-sensitive ownership (escape) analysis, per-path pairing counts, who-writes with constant evaluation (libTooling CFG facts)",
+        ref="DESIGN.md §4 C05"),
 }
 
 NOT_APPLICABLE = {
